@@ -81,6 +81,32 @@ Check eval_entered_scopes_escape :
     honest k = true -> In s (ev_scopes k) -> all_esc (an k cur de w T) s = true.
 Print Assumptions eval_entered_scopes_escape.
 
+(* The truthfulness hypothesis is discharged for the collector of the code that exists now (contains(.., DirectEval)
+   looks into methods, field initializers and static blocks): every script's skeleton has truthful flags. *)
+Theorem collect_flags_truthful :
+  forall (strict : bool) (stmts : list node), honest (fst (collect_script strict stmts)) = true.
+Proof. exact collect_script_honest. Qed.
+Check collect_flags_truthful :
+  forall (strict : bool) (stmts : list node), honest (fst (collect_script strict stmts)) = true.
+Print Assumptions collect_flags_truthful.
+
+(* Hence, without hypothesis, for every script of the compact syntax: all bindings of every scope entered around a
+   direct eval call site (block / loop / catch / switch scopes, the four function scopes, class name scopes and — since
+   the fix — the name scope of a named function expression) escape. *)
+Theorem eval_scopes_escape_for_scripts :
+  forall (strict : bool) (stmts : list node) (s : nat),
+    In s (ev_scopes (fst (collect_script strict stmts))) -> all_esc (analyze strict stmts) s = true.
+Proof.
+  intros strict stmts s Hin. unfold analyze.
+  pose proof (collect_script_honest strict stmts) as Hh.
+  destruct (collect_script strict stmts) as [k T]. simpl in *.
+  apply ev_sound_sk; assumption.
+Qed.
+Check eval_scopes_escape_for_scripts :
+  forall (strict : bool) (stmts : list node) (s : nat),
+    In s (ev_scopes (fst (collect_script strict stmts))) -> all_esc (analyze strict stmts) s = true.
+Print Assumptions eval_scopes_escape_for_scripts.
+
 (* The fuel of the scope-chain walks (the number of scopes) is enough on tables whose outer pointers
    decrease, which is what Scope::new builds (checked per program by the correspondence: r_wf). *)
 Theorem chain_walk_fuel_irrelevant :
@@ -110,42 +136,51 @@ Check crossed_iff_other_function :
     (crossed = true <-> fun_of n T s <> fun_of n T sb).
 Print Assumptions crossed_iff_other_function.
 
-(* ---- what the faithful model refutes (on-tree findings, see design.d/C04.md) ---- *)
+(* ---- findings of the first round, now fixed in /repo (fixes eval-under-method, eval-named-function-expression).
+        `…_old` is the analyzer as it was; the witnesses stay as documentation, and the repaired model handles them. ---- *)
 
 (* function f(){ let x; ({ m(){ eval("x") } }) }      names: f = 2, x = 3
-   contains(.., DirectEval) does not look into method definitions: f is not flagged, x stays a register,
-   yet the eval code names it. *)
+   before the fix contains(.., DirectEval) did not look into method definitions: f was not flagged, x stayed a
+   register, yet the eval code names it. *)
 Definition w_method : list node :=
   [NFunDecl 2%N false [] [NLex false [NDeclr (NPat true [3%N] []) []];
                           NCtl [NOp [NMethod false [] [] [NCtl [NCall (NId n_eval) [NOp []]] []]]] []]].
 
-Theorem eval_under_method_refuted :
+Theorem eval_under_method_refuted_old :
   exists stmts : list node,
-    honest (fst (collect_script false stmts)) = false /\
-    eval_reach_ok (snd (collect_script false stmts)) (analyze false stmts) (fst (collect_script false stmts)) = false.
+    honest (fst (collect_script_old false stmts)) = false /\
+    eval_reach_ok (snd (collect_script_old false stmts)) (analyze_old false stmts) (fst (collect_script_old false stmts)) = false.
 Proof. exists w_method. vm_compute. split; reflexivity. Qed.
-Check eval_under_method_refuted :
+Check eval_under_method_refuted_old :
   exists stmts : list node,
-    honest (fst (collect_script false stmts)) = false /\
-    eval_reach_ok (snd (collect_script false stmts)) (analyze false stmts) (fst (collect_script false stmts)) = false.
-Print Assumptions eval_under_method_refuted.
+    honest (fst (collect_script_old false stmts)) = false /\
+    eval_reach_ok (snd (collect_script_old false stmts)) (analyze_old false stmts) (fst (collect_script_old false stmts)) = false.
+Print Assumptions eval_under_method_refuted_old.
 
 (* (function fact(){ eval("fact") })      name: fact = 2
-   the flags are truthful, but the name scope of a function expression is not among the scopes that
-   visit_function_like escapes. *)
+   before the fix the flags were truthful, but the name scope of a function expression was not among the scopes
+   escaped for a direct eval. *)
 Definition w_named : list node :=
   [NCtl [NFun (Some 2%N) false [] [NCtl [NCall (NId n_eval) [NOp []]] []]] []].
 
-Theorem eval_named_function_expression_refuted :
+Theorem eval_named_function_expression_refuted_old :
   exists stmts : list node,
-    honest (fst (collect_script false stmts)) = true /\
-    eval_reach_ok (snd (collect_script false stmts)) (analyze false stmts) (fst (collect_script false stmts)) = false.
+    honest (fst (collect_script_old false stmts)) = true /\
+    eval_reach_ok (snd (collect_script_old false stmts)) (analyze_old false stmts) (fst (collect_script_old false stmts)) = false.
 Proof. exists w_named. vm_compute. split; reflexivity. Qed.
-Check eval_named_function_expression_refuted :
+Check eval_named_function_expression_refuted_old :
   exists stmts : list node,
-    honest (fst (collect_script false stmts)) = true /\
-    eval_reach_ok (snd (collect_script false stmts)) (analyze false stmts) (fst (collect_script false stmts)) = false.
-Print Assumptions eval_named_function_expression_refuted.
+    honest (fst (collect_script_old false stmts)) = true /\
+    eval_reach_ok (snd (collect_script_old false stmts)) (analyze_old false stmts) (fst (collect_script_old false stmts)) = false.
+Print Assumptions eval_named_function_expression_refuted_old.
+
+(* the code that exists now: on both witnesses the flags are truthful and nothing nameable stays a register *)
+Example eval_witnesses_repaired :
+  honest (fst (collect_script false w_method)) = true /\
+  eval_reach_ok (snd (collect_script false w_method)) (analyze false w_method) (fst (collect_script false w_method)) = true /\
+  honest (fst (collect_script false w_named)) = true /\
+  eval_reach_ok (snd (collect_script false w_named)) (analyze false w_named) (fst (collect_script false w_named)) = true.
+Proof. vm_compute. repeat split; reflexivity. Qed.
 
 (* ---- the hypotheses are satisfiable / the definitions say what they should on small programs ---- *)
 
